@@ -24,6 +24,7 @@ def check(scn, H, view=None):
         out.append(Violation(PROP, sig, kw))
     kinds = [v.esi[c]['kind'] for c in v.chain]
     ok_so_far = True
+    prev_dump = None
     for rec in H['ops']:
         op = scn['schedule'][rec['i']]
         if rec['op'] in ('run', 'reset'):
@@ -34,6 +35,21 @@ def check(scn, H, view=None):
                 break
             d = rec['dump']
             n = d['n']
+            # recorded history is append-only within an epoch: a later
+            # operation must not rewrite earlier samples
+            if prev_dump is not None and rec['op'] == 'run' and \
+                    rec['n_before'] > 0 and prev_dump['n'] == rec['n_before']:
+                st['prefix_checks'] += 1
+                m = prev_dump['n']
+                if d['time'][:m] != prev_dump['time'][:m]:
+                    viol('history-rewritten/time', op_index=rec['i'])
+                for p, (e0, e1) in enumerate(zip(prev_dump['elems'], d['elems'])):
+                    for var, xs in e0['tv'].items():
+                        if e1['tv'].get(var, [])[:len(xs)] != xs and \
+                                all(x == x for x in xs if x is not None):
+                            viol(f'history-rewritten/{kinds[p]}/{var}',
+                                 element=p, op_index=rec['i'])
+            prev_dump = d
             st['dumps_checked'] += 1
             st['after_' + rec['op']] += 1
             if rec['op'] == 'run' and rec['n_before'] > 0:
